@@ -15,6 +15,7 @@ package ctfe
 
 import (
 	"bytes"
+	"context"
 	"crypto"
 	"crypto/ecdsa"
 	"crypto/rand"
@@ -24,6 +25,7 @@ import (
 	"crypto/x509/pkix"
 	"encoding/base64"
 	"encoding/json"
+	"encoding/pem"
 	"fmt"
 	"math/big"
 	"os"
@@ -38,7 +40,13 @@ import (
 	"github.com/google/certificate-transparency-go/internal/verifkit"
 	"github.com/google/certificate-transparency-go/x509"
 	"github.com/google/certificate-transparency-go/x509util"
+	"github.com/google/certificate-transparency-go/trillian/ctfe/configpb"
 	"github.com/google/trillian"
+	"github.com/google/trillian/crypto/keys/der"
+	"github.com/google/trillian/crypto/keyspb"
+	"github.com/google/trillian/monitoring"
+	"google.golang.org/protobuf/types/known/anypb"
+	"google.golang.org/protobuf/types/known/timestamppb"
 )
 
 // ---------------------------------------------------------------------------------- abstract view
@@ -60,6 +68,7 @@ type c02Opts struct {
 	onlyCA, rejExp, rejUnexp bool
 	rejExt                   []asn1.ObjectIdentifier
 	ekus                     []x509.ExtKeyUsage
+	viaConfig                bool // build the validation options through LogConfig -> ValidateLogConfig -> setUpLogInfo
 }
 
 // c02Case is one submission: universe of distinct certificates, pool, chain (index or -1 = unparsable DER).
@@ -318,7 +327,75 @@ func (k *c02Case) line(op string, o c02Opts, now time.Time, endpoint int) string
 	return sb.String()
 }
 
+var c02EKUNames = func() map[x509.ExtKeyUsage]string {
+	m := map[x509.ExtKeyUsage]string{}
+	for n, v := range stringToKeyUsage {
+		m[v] = n
+	}
+	return m
+}()
+
+var c02CfgKey *anypb.Any
+
+// voptsViaConfig: the same options as a LogConfig, through the configuration path of the server
+// (ValidateLogConfig, then setUpLogInfo, which copies the validated values into the CertValidationOpts).
+func (k *c02Case) voptsViaConfig(o c02Opts) (CertValidationOpts, bool) {
+	if !o.now.IsZero() || len(k.pool.RawCertificates()) == 0 {
+		return CertValidationOpts{}, false
+	}
+	for _, e := range o.ekus {
+		if e == x509.ExtKeyUsageAny { // in a config "Any" switches the filter off; as an option value it is an EKU to look for
+			return CertValidationOpts{}, false
+		}
+	}
+	if c02CfgKey == nil {
+		d, err := der.MarshalPrivateKey(vKeys()[2].priv)
+		if err != nil {
+			return CertValidationOpts{}, false
+		}
+		c02CfgKey, _ = anypb.New(&keyspb.PrivateKey{Der: d})
+	}
+	f, err := os.CreateTemp("", "verif-c02-roots-*.pem")
+	if err != nil {
+		return CertValidationOpts{}, false
+	}
+	defer os.Remove(f.Name())
+	for _, c := range k.pool.RawCertificates() {
+		pem.Encode(f, &pem.Block{Type: "CERTIFICATE", Bytes: c.Raw})
+	}
+	f.Close()
+	cfg := &configpb.LogConfig{LogId: 77, Prefix: "verif", RootsPemFile: []string{f.Name()}, PrivateKey: c02CfgKey,
+		RejectExpired: o.rejExp, RejectUnexpired: o.rejUnexp, AcceptOnlyCa: o.onlyCA}
+	for _, e := range o.ekus {
+		cfg.ExtKeyUsages = append(cfg.ExtKeyUsages, c02EKUNames[e])
+	}
+	for _, id := range o.rejExt {
+		cfg.RejectExtensions = append(cfg.RejectExtensions, id.String())
+	}
+	if o.start != nil {
+		cfg.NotAfterStart = timestamppb.New(*o.start)
+	}
+	if o.limit != nil {
+		cfg.NotAfterLimit = timestamppb.New(*o.limit)
+	}
+	vCfg, err := ValidateLogConfig(cfg)
+	if err != nil {
+		return CertValidationOpts{}, false
+	}
+	li, err := setUpLogInfo(context.Background(), InstanceOptions{Validated: vCfg, Client: &verifkit.FuncLog{}, Deadline: time.Second,
+		MetricFactory: monitoring.InertMetricFactory{}, RequestLog: new(DefaultRequestLog)})
+	if err != nil {
+		return CertValidationOpts{}, false
+	}
+	return li.validationOpts, true
+}
+
 func (k *c02Case) vopts(o c02Opts) CertValidationOpts {
+	if o.viaConfig {
+		if v, ok := k.voptsViaConfig(o); ok {
+			return v
+		}
+	}
 	v := NewCertValidationOpts(k.pool, o.now, o.rejExp, o.rejUnexp, o.start, o.limit, o.onlyCA, o.ekus)
 	v.rejectExtIds = o.rejExt
 	return v
@@ -892,7 +969,7 @@ func c02Submission(r *verifkit.Rand, w *vWorld, tag string) c02Sub {
 		return a[r.Intn(len(a))]
 	}
 	// --- the chain
-	mode := r.Intn(26)
+	mode := r.Intn(28)
 	switch {
 	case mode < 7:
 		s.mode += "plain"
@@ -991,6 +1068,16 @@ func c02Submission(r *verifkit.Rand, w *vWorld, tag string) c02Sub {
 	case mode == 23:
 		path = append(path, root, root)
 		s.mode += "root-twice"
+	case mode == 26: // a copy of the trusted root with other signature bytes (same TBSCertificate) in the root position
+		path = append(path, vFlipSig(root))
+		s.mode += "root-copy-other-signature"
+	case mode == 27: // the same for a certificate inside the chain
+		i := r.Intn(len(path))
+		path[i] = vFlipSig(path[i])
+		if r.Bool() {
+			path = append(path, root)
+		}
+		s.mode += "copy-other-signature"
 	default:
 		s.mode += "plain"
 	}
@@ -1073,6 +1160,12 @@ func c02OptsFor(r *verifkit.Rand, bits int, leaf *x509.Certificate) c02Opts {
 		t := c02Bound(r, na, false)
 		o.limit = &t
 	}
+	if o.now.IsZero() || r.Intn(4) == 0 {
+		// through the server's configuration path (which has no clock option: wall clock)
+		if !(o.rejExp || o.rejUnexp) || o.now.IsZero() {
+			o.now, o.viaConfig = time.Time{}, true
+		}
+	}
 	return o
 }
 
@@ -1138,6 +1231,8 @@ func TestVerifC02(t *testing.T) {
 	}
 	c02Budget(e)
 	c02PassThrough(e)
+	c02Copies(e)
+	c02ConfigEKU(e)
 	c02Incomplete(e)
 	c02PoisonFixed(e)
 	c02Fixed(e)
@@ -1270,6 +1365,49 @@ func c02PassThrough(e *c02Env) {
 		l3 := vIssue(vSpec{cn: tag + "L3", key: keys[r.Intn(len(keys))], issuer: i, keyUsage: stdx509.KeyUsageDigitalSignature})
 		for _, c := range [][]*vCert{{l3, i}, {l3, i, r2x}, {l3, i, r2x, r1}} {
 			run("cross-certificate", []*vCert{r1, r2x}, c)
+		}
+	}
+}
+
+// c02Copies: a certificate with the TBSCertificate of a trusted root but other signature bytes is not that root: in the
+// root position, alone, or below an intermediate it must not be admitted, and an admitted path consists of the
+// submitted certificates themselves.
+func c02Copies(e *c02Env) {
+	keys := vKeys()
+	neutral := c02Opts{now: time.Date(2030, 1, 1, 0, 0, 0, 0, time.UTC)}
+	root := vIssue(vSpec{cn: "copy root", key: keys[2], isCA: true, keyUsage: vCAUsage})
+	other := vIssue(vSpec{cn: "copy other root", key: keys[3], isCA: true, keyUsage: vCAUsage})
+	inter := vIssue(vSpec{cn: "copy inter", key: keys[4], issuer: root, isCA: true, keyUsage: vCAUsage})
+	leaf := vIssue(vSpec{cn: "copy leaf", key: keys[11], issuer: inter, keyUsage: stdx509.KeyUsageDigitalSignature})
+	rc, ic := vFlipSig(root), vFlipSig(inter)
+	for _, chain := range [][]*vCert{{leaf, inter, rc}, {inter, rc}, {rc}, {leaf, ic, root}, {leaf, ic}, {leaf, inter, root, rc}} {
+		var ders [][]byte
+		var labels []string
+		for _, c := range chain {
+			ders = append(ders, c.der)
+			labels = append(labels, c.label)
+		}
+		k := c02NewCase([]*vCert{root, other}, ders)
+		if e.eval(k, labels, neutral, 0) {
+			e.out.Fail("copies: "+strings.Join(labels, ","), "a submission containing a copy of a certificate with altered signature bytes was admitted")
+		}
+		e.evalVerify(k, labels)
+		e.out.Count("mode:copy-other-signature-fixed")
+	}
+}
+
+// c02ConfigEKU: the EKU filter as the server builds it from its configuration (ext_key_usages), against leaves that
+// carry anyExtendedKeyUsage or an unrelated usage.
+func c02ConfigEKU(e *c02Env) {
+	keys := vKeys()
+	root := vIssue(vSpec{cn: "cfg root", key: keys[2], isCA: true, keyUsage: vCAUsage})
+	for i, leafEKU := range [][]stdx509.ExtKeyUsage{{stdx509.ExtKeyUsageAny}, {stdx509.ExtKeyUsageClientAuth, stdx509.ExtKeyUsageAny},
+		{stdx509.ExtKeyUsageServerAuth}, {stdx509.ExtKeyUsageClientAuth}, nil} {
+		leaf := vIssue(vSpec{cn: fmt.Sprintf("cfg leaf %d", i), key: keys[11], issuer: root, keyUsage: stdx509.KeyUsageDigitalSignature, ekus: leafEKU})
+		k := c02NewCase([]*vCert{root}, [][]byte{leaf.der})
+		for _, want := range [][]x509.ExtKeyUsage{{x509.ExtKeyUsageServerAuth}, {x509.ExtKeyUsageServerAuth, x509.ExtKeyUsageClientAuth}, {x509.ExtKeyUsageCodeSigning}} {
+			e.eval(k, []string{leaf.label, fmt.Sprint("leaf EKUs ", leafEKU)}, c02Opts{ekus: want, viaConfig: true}, 1)
+			e.out.Count("mode:eku-filter-via-config")
 		}
 	}
 }
